@@ -548,6 +548,14 @@ func init() {
 					}
 				}
 			}
+			// cpualt's string-returning disassembler (a separate implementation of the same rendering)
+			for op := 0; op < 256; op++ {
+				for mx := 0; mx < 4; mx++ {
+					if tier == "thorough" || mx == op%4 {
+						js = append(js, job("c14", "Line", fmt.Sprintf("c14/line/alt-string/%s/m%dx%d", opName(op), mx>>1, mx&1), 2, int64(op), int64(mx>>1), int64(mx&1)))
+					}
+				}
+			}
 			js = append(js, c14LoggerJobs(tier)...)
 			return js
 		},
